@@ -1,6 +1,7 @@
 package eng
 
 import (
+	"strconv"
 	"strings"
 )
 
@@ -299,20 +300,41 @@ func shiftedVariants(body string, q string, fresh func() string) []struct{ Var, 
 // earlier ones true).  Only equivalences are used, so the polarity of the position is irrelevant.
 
 type simpCtx struct {
-	facts map[string]bool
-	memo  map[*sx]string
+	facts  map[int]bool
+	memo   map[*sx]int
+	intern map[string]int
 }
 
-func (c *simpCtx) key(n *sx) string {
-	if !n.isL {
-		return n.atom
+// key returns a small integer identifying the text of n (texts are interned once, so that
+// copying and probing the fact maps does not hash formula-sized strings).
+func (c *simpCtx) key(n *sx) int {
+	if n.isL {
+		if id, ok := c.memo[n]; ok {
+			return id
+		}
 	}
-	if s, ok := c.memo[n]; ok {
-		return s
+	var s string
+	if n.isL {
+		// hash-consing: a list is identified by the identifiers of its children
+		var b strings.Builder
+		b.WriteByte('(')
+		for _, ch := range n.list {
+			b.WriteString(strconv.Itoa(c.key(ch)))
+			b.WriteByte(' ')
+		}
+		s = b.String()
+	} else {
+		s = n.atom
 	}
-	s := n.String()
-	c.memo[n] = s
-	return s
+	id, ok := c.intern[s]
+	if !ok {
+		id = len(c.intern) + 1
+		c.intern[s] = id
+	}
+	if n.isL {
+		c.memo[n] = id
+	}
+	return id
 }
 
 var sxTrue, sxFalse = &sx{atom: "true"}, &sx{atom: "false"}
@@ -321,18 +343,18 @@ func isTrueSx(n *sx) bool  { return !n.isL && n.atom == "true" }
 func isFalseSx(n *sx) bool { return !n.isL && n.atom == "false" }
 
 func (c *simpCtx) clone() *simpCtx {
-	f := make(map[string]bool, len(c.facts)+4)
+	f := make(map[int]bool, len(c.facts)+4)
 	for k, v := range c.facts {
 		f[k] = v
 	}
-	return &simpCtx{facts: f, memo: c.memo}
+	return &simpCtx{facts: f, memo: c.memo, intern: c.intern}
 }
 
 // assume records that n has truth value val.
 func (c *simpCtx) assume(n *sx, val bool) {
 	if !n.isL {
 		if n.atom != "true" && n.atom != "false" {
-			c.facts[n.atom] = val
+			c.facts[c.key(n)] = val
 		}
 		return
 	}
@@ -563,6 +585,6 @@ func ctxSimplify(s string) string {
 	if tree == nil {
 		return s
 	}
-	c := &simpCtx{facts: map[string]bool{}, memo: map[*sx]string{}}
+	c := &simpCtx{facts: map[int]bool{}, memo: map[*sx]int{}, intern: map[string]int{}}
 	return c.simp(tree).String()
 }
